@@ -67,6 +67,8 @@ def canon(s: Any, self_name: str = "self") -> List[Tuple[Any, ...]]:
             nm = f.a[1]
             if nm == f"{self_name}.name":
                 out.append(("NAME",) if not f.c else ("NAME-ESCAPED", tuple(f.c)))
+            elif f.b == "UNKNOWN":
+                raise Unmodelled(f"rendered output contains a string whose content the analysis does not know: {nm}")
             else:
                 out.append(("TEXT", f.b, tuple(f.c or ()), nm))
         elif f.kind == "OP":
@@ -75,9 +77,12 @@ def canon(s: Any, self_name: str = "self") -> List[Tuple[Any, ...]]:
                 q = d[1]
                 p = f.b or {}
                 if q == "Tag.get_html_string":
-                    a = _bind(p, ["indent", "eol"])
+                    a = _bind(p, ["indent", "eol"] + list(_TAG_EXTRA))
+                    if len(p.get("args", [])) > 2 + len(_TAG_EXTRA) or p.get("dstar"):
+                        raise Unmodelled("Tag.get_html_string called with more arguments than it declares")
+                    extras = tuple(sorted((k, canon_arg(v)) for k, v in a.items() if k not in ("indent", "eol")))
                     out.append(("TAG", canon_arg(a.get("indent", _DEF["indent"])), canon_arg(a.get("eol", _DEF["eol"])),
-                                _recv(p)))
+                                extras, _recv(p)))
                 elif q == "TagList.get_html_string":
                     a = _bind(p, ["indent", "eol"])
                     out.append(("CHILDREN", canon_arg(a.get("indent", _DEF["indent"])), canon_arg(a.get("eol", _DEF["eol"])),
@@ -170,6 +175,8 @@ class Model:
         self.void: FrozenSet[str] = frozenset()
         self.noesc: FrozenSet[str] = frozenset()
         self.defaults: Dict[str, Any] = {}
+        self.tag_extra: Dict[str, Any] = {}
+        self.tag_extra_passed: Dict[str, set] = {}   # extra parameter -> canonical arguments passed by the sibling loop
         self.stats: Dict[str, int] = {}
 
 
@@ -179,9 +186,16 @@ def _tl_args(run: Any) -> Tuple[Dict[str, Any], Any]:
              "add_ws": SBool(("param", "add_ws")), "_escape_strings": SBool(("param", "_escape_strings"))}, s)
 
 
+_TAG_EXTRA: Dict[str, Any] = {}     # extra parameters of Tag.get_html_string (beyond self, indent, eol) -> folded default
+
+
 def _tag_args(run: Any) -> Tuple[Dict[str, Any], Any]:
     s = SObj("self", {"TAG"})
-    return ({"self": s, "indent": SInt("indent"), "eol": SStr([Frag("VAR", "eol")])}, s)
+    b: Dict[str, Any] = {"self": s, "indent": SInt("indent"), "eol": SStr([Frag("VAR", "eol")])}
+    for nm, d in _TAG_EXTRA.items():
+        # a boolean extra parameter is explored for both values; which ones are reachable is decided from the call sites
+        b[nm] = SBool(("param", nm)) if isinstance(d, bool) else d
+    return (b, s)
 
 
 def extract(prog: Program) -> Model:
@@ -192,6 +206,16 @@ def extract(prog: Program) -> Model:
     fn_tl = prog.function(CORE, "TagList.get_html_string")
     fn_tag = prog.function(CORE, "Tag.get_html_string")
     m.defaults = {"taglist": _defaults(prog, fn_tl), "tag": _defaults(prog, fn_tag)}
+    _TAG_EXTRA.clear()
+    a_ = fn_tag.args
+    if a_.vararg or a_.kwarg:
+        raise Unmodelled("Tag.get_html_string takes *args/**kwargs")
+    for p_ in (a_.posonlyargs + a_.args)[3:] + a_.kwonlyargs:
+        d_ = m.defaults["tag"].get(p_.arg, ("unfoldable", "no default"))
+        if isinstance(d_, tuple) and d_ and d_[0] == "unfoldable":
+            raise Unmodelled(f"Tag.get_html_string: extra parameter `{p_.arg}` without a constant default")
+        _TAG_EXTRA[p_.arg] = d_
+    m.tag_extra = dict(_TAG_EXTRA)
 
     # ---- sibling loop: summary run (initial state, what is returned) ---------------------------------
     cfg = Config()
@@ -238,6 +262,13 @@ def extract(prog: Program) -> Model:
         m.sib_rows.append(row)
     if not m.sib_rows:
         raise Unmodelled("TagList.get_html_string: loop body produced no paths")
+    for row in m.sib_rows:
+        for t in row.tokens:
+            if t[0] == "TAG" and len(t) > 4:
+                for k, v in t[3]:
+                    if k not in _TAG_EXTRA:
+                        raise Unmodelled(f"Tag.get_html_string called with unknown keyword `{k}`")
+                    m.tag_extra_passed.setdefault(k, set()).add(v)
 
     # ---- element frame ----------------------------------------------------------------------------------
     cfg3 = Config()
